@@ -5,6 +5,9 @@ every device call."""
 import itertools
 import random
 import struct
+import sys
+import threading
+import time
 import warnings
 
 import audiolazy
@@ -129,6 +132,12 @@ def cases(ctx):
     yield ("scn", specs, initial, hist, wait,
            rng.choice(["close", "close", "with", "close2"]),
            rng.getrandbits(32), rng.choice([0.0, 0.0, 0.5, 0.8, 0.95]), False)
+  for _ in ctx.loop(240, 24000):
+    wait = rng.random() < 0.45
+    nplayers = rng.randint(1, 3)
+    specs, hist = rhistory(rng, nplayers, wait)
+    yield ("free", specs, nplayers, hist, wait,
+           rng.choice(["close", "with", "close2"]), rng.getrandbits(32))
   if not ctx.quick:
     for _ in ctx.loop(0, 48000):
       wait = rng.random() < 0.45
@@ -139,8 +148,111 @@ def cases(ctx):
              rng.choice([0.0, 0.5, 0.9]), True)
 
 
+def play_history(specs, initial, hist, wait, style, handles, stopped, flow,
+                 idle):
+  """The main-thread side of a scenario (same code under the controlled
+  scheduler and in free-running mode)."""
+  aio = lazy_io.AudioIO(wait)
+
+  def start(i):
+    kind, length, cs, ch = specs[i]
+    th = aio.play(make_iterable(specs[i]), chunk_size=cs, channels=ch)
+    handles.append(th)
+  if style == "with":
+    aio.__enter__()
+  for i in range(initial):
+    start(i)
+  for op in hist:
+    if op[0] == "idle":
+      for _ in range(op[1]):
+        idle()
+    elif op[0] == "pause":
+      handles[op[1]].pause()
+    elif op[0] == "resume":
+      handles[op[1]].play()
+    elif op[0] == "stop":
+      handles[op[1]].stop()
+      stopped.add(op[1])
+    elif op[0] == "play":
+      start(op[1])
+  if style == "with":
+    aio.__exit__(None, None, None)
+  else:
+    aio.close()
+  flow["close_returned"] = True
+  flow["terminated_at_close"] = [pa.terminated for pa in
+                                 S.FakePyAudio.instances]
+  if style == "close2":
+    aio.close()
+  try:
+    aio.play([0.0, 0.5], chunk_size=2)
+    flow["play_after_close"] = "accepted"
+  except RuntimeError:
+    flow["play_after_close"] = "raised"
+
+
+def run_free(ctx, case):
+  """Secondary workload: the same scenarios with real pre-emption (no
+  scheduler): tiny switch interval and random micro-sleeps inside the fake
+  device.  A stuck run can only be seen as a wall-clock watchdog timeout and
+  is therefore inconclusive, never a violation."""
+  _, specs, initial, hist, wait, style, sseed = case
+  if not ctx.replay and (ctx.counters.get("violations_total") or
+                         ctx.counters.get("free-run-watchdog-timeouts")):
+    # the controlled scheduler already has a witness (or a free run already
+    # hung): do not spend the budget waiting for wall-clock watchdogs
+    ctx.count("free-running-skipped")
+    return False
+  rng = random.Random(sseed)
+  delays = [0, 0, 0, 1e-5, 5e-5, 2e-4]
+  S.FakePyAudio.instances[:] = []
+  S.FREE_DELAY = lambda: time.sleep(rng.choice(delays))
+  old_interval = sys.getswitchinterval()
+  sys.setswitchinterval(1e-5)
+  handles, stopped = [], set()
+  flow = {"close_returned": False, "play_after_close": None, "drained": True}
+  errors = []
+
+  def body():
+    try:
+      play_history(specs, initial, hist, wait, style, handles, stopped, flow,
+                   lambda: time.sleep(rng.choice(delays)))
+    except BaseException as exc:  # noqa
+      errors.append(exc)
+  worker = threading.Thread(target=body, daemon=True)
+  try:
+    worker.start()
+    worker.join(30.0)
+    alive = worker.is_alive()
+    if not alive:
+      for th in handles:
+        threading.Thread.join(th, 10.0)
+        alive = alive or th.is_alive()
+  finally:
+    sys.setswitchinterval(old_interval)
+    S.FREE_DELAY = None
+  ctx.count("free-running-scenarios")
+  if alive:
+    ctx.count("free-run-watchdog-timeouts")
+    ctx.count("harness_errors")
+    ctx.notes.append({"harness_error": "free-running scenario exceeded the "
+                      "wall-clock watchdog (inconclusive)",
+                      "case_repr": repr(case)[:1500]})
+    return True
+  if errors:
+    raise errors[0]
+  if getattr(ctx, "thread_exceptions", None):
+    errs = list(ctx.thread_exceptions)
+    del ctx.thread_exceptions[:]
+    ctx.violation("player-thread-exception", case, errors=errs)
+    return True
+  return judge(ctx, case, specs, stopped, wait, flow)
+
+
 # ----------------------------------------------------------------------------
 def run_case(ctx, case):
+  if case[0] == "free":
+    return run_free(ctx, case)
   _, specs, initial, hist, wait, style, sseed, stick, line = case
   rng = random.Random(sseed)
 
@@ -156,43 +268,8 @@ def run_case(ctx, case):
   h = S.Harness(lazy_io, chooser, MAX_STEPS_LINE if line else MAX_STEPS, line)
   with h:
     sch = h.sched
-    aio = lazy_io.AudioIO(wait)
-
-    def start(i):
-      kind, length, cs, ch = specs[i]
-      th = aio.play(make_iterable(specs[i]), chunk_size=cs, channels=ch)
-      handles.append(th)
-    if style == "with":
-      aio.__enter__()
-    for i in range(initial):
-      start(i)
-    for op in hist:
-      if op[0] == "idle":
-        for _ in range(op[1]):
-          sch.switch("idle")
-      elif op[0] == "pause":
-        handles[op[1]].pause()
-      elif op[0] == "resume":
-        handles[op[1]].play()
-      elif op[0] == "stop":
-        handles[op[1]].stop()
-        stopped.add(op[1])
-      elif op[0] == "play":
-        start(op[1])
-    if style == "with":
-      aio.__exit__(None, None, None)
-    else:
-      aio.close()
-    flow["close_returned"] = True
-    flow["terminated_at_close"] = [pa.terminated for pa in
-                                   S.FakePyAudio.instances]
-    if style == "close2":
-      aio.close()
-    try:
-      aio.play([0.0, 0.5], chunk_size=2)
-      flow["play_after_close"] = "accepted"
-    except RuntimeError:
-      flow["play_after_close"] = "raised"
+    play_history(specs, initial, hist, wait, style, handles, stopped, flow,
+                 lambda: sch.switch("idle"))
     # stimulus-free drain: players already unregistered retire on their own
     for _ in range(300):
       if sch.all_others_done(h.main):
@@ -319,6 +396,7 @@ def judge(ctx, case, specs, stopped, wait, flow):
 
 def finish(ctx):
   ctx.need("scenarios", 500)
+  ctx.need("free-running-scenarios", 100)
   ctx.need("distinct-interleavings", 400)
   ctx.need("chunks-received", 2000)
   for op in ["idle", "pause", "resume", "stop", "play"]:
